@@ -1,9 +1,23 @@
 """C13 - comparison is sound and complete over the compared properties."""
+import contextlib
 import copy as pycopy
 import decimal
+import io
+import json
+import logging
+import os
+import re
+import tempfile
+
+import click.testing
 
 import canmatrix.canmatrix as cm
+import canmatrix.cli.compare as cancompare
 import canmatrix.compare
+import canmatrix.formats
+import canmatrix.log
+
+from lib import core
 
 PID = "C13"
 RULE = ("case = (matrix a, matrix b, ignore settings (comments, attributes, definitions, value tables) - all 16 combinations); "
@@ -11,10 +25,12 @@ RULE = ("case = (matrix a, matrix b, ignore settings (comments, attributes, defi
         "(frame: added/deleted/length/id/format/name/comment/sender/attribute/signal group; signal: added/deleted/start/width/"
         "factor/offset/min/max/byte order/sign/multiplex/unit/comment/receiver/attribute/value table; ECU: added/deleted/comment/"
         "attribute; definitions of all four kinds: added/deleted/definition/default; global attribute; global value table), or an "
-        "The two matrices are compared in both orders, and once more, as the same objects. unrelated matrix; both operand orders are compared. Numbers include values around 2^32 (the next half step differs in the tenth digit), value texts include characters outside ASCII, frames added with the number of an existing frame in the other format, definitions edited inside their type (ENUM values, INT range). Non-trivial = distinct case with b != a.")
+        "The two matrices are compared in both orders, and once more, as the same objects. unrelated matrix; both operand orders are compared. Numbers include values around 2^32 (the next half step differs in the tenth digit), value texts include characters outside ASCII, frames added with the number of an existing frame in the other format, definitions edited inside their type (ENUM values, INT range). One case in five is compared after one to three other comparisons (other operands, other ignore settings) in the same process. A second stream goes through the command line canmatrix.cli.compare: the two matrices (made expressible in DBC: every attribute defined, one multiplexer per frame) are written to files, the case describes what a reader gets from the files, and cli_compare is invoked in a forked child process - by main(args), by click's CliRunner or by its callback, switches -c/-a/-t in short or long spelling - on a b and on b a, after zero to three earlier invocations with other switches, other operand orders or --frames; the printed report is held against the library comparison of the same files under the ignore settings the switches stand for, and is itself the observation when it differs. The meaning of the switches (op flags) is observed on twelve probe file pairs that differ in one comment / attribute / definition / value table entry, again after earlier invocations. Non-trivial = distinct case with b != a.")
 PARTIAL = ["numeric fields are compared as doubles by the code; generated values are multiples of 0.5 (exactly representable), "
            "modelled as integers", "the ref/changes payload of result nodes (object references, old/new texts) is not compared, only "
-           "(result, type) and the tree shape", "cancompare's stdout is dump_result of the same tree; the CLI flag mapping is compared separately (op 'flags')"]
+           "(result, type) and the tree shape", "cancompare's stdout is compared as text with dump_result of the library's tree for the same files; when it differs, the tree read back "
+           "from the printed listing (non-equal nodes only; the verdict of the root is not printed) is judged", "the command line is run on DBC "
+           "files only and always with -s; the ignore setting for definitions cannot be reached from the command line"]
 ASSUMPTIONS = ["frame names and ids unique within a matrix, signal names unique within a frame, ECU names unique",
                "comment edits are between non-empty texts (a signal comment of None is never reported by design)"]
 TRUSTED = ["float() conversion of Decimal for the generated half-integers"]
@@ -264,19 +280,403 @@ def gen(rng, tier, shard, nshards):
         ign = [rng.random() < 0.35, rng.random() < 0.35, rng.random() < 0.25, rng.random() < 0.35]
         k = rng.random()
         if k < 0.12:
-            yield {"op": "cmp", "c": {"a": a, "b": pycopy.deepcopy(a), "ign": ign, "edit": "none"}}
+            case = {"op": "cmp", "c": {"a": a, "b": pycopy.deepcopy(a), "ign": ign, "edit": "none"}}
         elif k < 0.82:
             b, desc = edit(rng, a)
             if b is None:
                 continue
-            yield {"op": "cmp", "c": {"a": a, "b": b, "ign": ign if rng.random() < 0.6 else [False, False, False, False], "edit": desc}}
+            case = {"op": "cmp", "c": {"a": a, "b": b, "ign": ign if rng.random() < 0.6 else [False, False, False, False], "edit": desc}}
         else:
-            yield {"op": "cmp", "c": {"a": a, "b": gen_matrix(rng, rng.choice(["", "", "b"])), "ign": ign, "edit": "unrelated"}}
+            case = {"op": "cmp", "c": {"a": a, "b": gen_matrix(rng, rng.choice(["", "", "b"])), "ign": ign, "edit": "unrelated"}}
+        if rng.random() < 0.2:
+            # the comparison under test is not the first one of the process: other comparisons, with other ignore settings and
+            # other operands, were made before it
+            case["c"]["pre"] = [[[rng.random() < 0.5 for _ in range(4)], rng.choice(["ab", "ba", "aa", "bb"])] for _ in range(rng.randint(1, 3))]
+        yield case
+    # the same comparison through the command line (canmatrix.cli.compare), on files, after a history of other invocations
+    for _ in range({"quick": 320, "thorough": 4800}[tier] // nshards):
+        case = gen_cli_case(rng)
+        if case is not None:
+            yield case
+    # what the switches of the command line mean, observed on probe files after a history of other invocations
+    for _ in range({"quick": 48, "thorough": 320}[tier] // nshards):
+        yield {"op": "flags", "c": [rng.random() < 0.5, rng.random() < 0.5, rng.random() < 0.5, gen_history(rng, len(PROBES))]}
     if shard == 0:
         for cc in (False, True):
             for ca in (False, True):
                 for iv in (False, True):
                     yield {"op": "flags", "c": [cc, ca, iv]}
+
+
+# ---------------------------------------------------------------------------------------------
+# the command line: matrices in files, invocations with a history
+# ---------------------------------------------------------------------------------------------
+OPTION_SENSITIVE = re.compile(r"comment|attr|val|vt\.|def\.")
+ENTRIES = ["main", "main", "runner", "callback"]
+
+
+def file_fit(m):
+    """make a generated matrix one that a DBC file can hold (in place): every attribute has a definition on its level and a value of
+    the definition's type, a frame has a comment text, a frame has at most one multiplexer"""
+    def fix(attrs, defs):
+        d = {x[0]: x[1] for x in defs}
+        for kv in attrs:
+            de = d.get(kv[0])
+            if de is None:
+                defs.append([kv[0], "STRING", None])
+                d[kv[0]] = "STRING"
+            elif de.startswith("ENUM"):
+                vals = re.findall(r'"([^"]*)"', de)
+                if kv[1] not in vals:
+                    kv[1] = vals[0]
+            elif de.startswith("INT") and not re.fullmatch(r"-?\d+", kv[1]):
+                kv[1] = "1"
+    fix(m["attrs"], m["gd"])
+    for e in m["ecus"]:
+        fix(e[2], m["ed"])
+    for f in m["frames"]:
+        if f["comment"] is None:
+            f["comment"] = ""
+        fix(f["attrs"], m["fd"])
+        seen = False
+        for s in f["sigs"]:
+            fix(s["attrs"], m["sd"])
+            if s["multiplex"] == "Multiplexor":
+                if seen:
+                    s["multiplex"] = "None"
+                seen = True
+    return m
+
+
+def _half(x):
+    d = D(str(x)) * 2
+    if d != d.to_integral_value():
+        raise ValueError("not a multiple of 0.5: %r" % (x,))
+    return int(d)
+
+
+def _text(x):
+    if x is None or isinstance(x, str):
+        return x
+    raise ValueError("text expected: %r" % (x,))
+
+
+def _kvs(d):
+    return [[str(k), v if isinstance(v, str) else str(v)] for k, v in d.items()]
+
+
+def describe(db):
+    """a matrix object in the form of the generator's descriptions (inverse of build); raises ValueError for what they cannot say"""
+    def defs(dd):
+        return [[n, _text(d.definition), _text(d.defaultValue)] for n, d in dd.items()]
+    frames = []
+    for f in db.frames:
+        sigs = []
+        for s in f.signals:
+            mux = "None" if s.multiplex is None else ("Multiplexor" if s.multiplex == "Multiplexor" else str(int(s.multiplex)))
+            sigs.append({"name": s.name, "start": int(s.start_bit), "size": int(s.size), "factor": _half(s.factor), "offset": _half(s.offset),
+                         "min": _half(s.min), "max": _half(s.max), "little": bool(s.is_little_endian), "signed": bool(s.is_signed),
+                         "multiplex": mux, "unit": _text(s.unit) or "", "comment": _text(s.comment), "receivers": [str(r) for r in s.receivers],
+                         "attrs": _kvs(s.attributes), "values": [[int(k), _text(v)] for k, v in s.values.items()]})
+        groups = [[g.name, int(g.id), [x.name for x in g.signals]] for g in f.signalGroups]
+        frames.append({"name": f.name, "id": int(f.arbitration_id.id), "ext": bool(f.arbitration_id.extended), "size": int(f.size),
+                       "comment": _text(f.comment), "tx": [str(t) for t in f.transmitters], "attrs": _kvs(f.attributes), "sigs": sigs,
+                       "groups": groups})
+    return {"frames": frames, "ecus": [[e.name, _text(e.comment), _kvs(e.attributes)] for e in db.ecus], "attrs": _kvs(db.attributes),
+            "gd": defs(db.global_defines), "ed": defs(db.ecu_defines), "fd": defs(db.frame_defines), "sd": defs(db.signal_defines),
+            "vt": [[n, [[int(k), _text(v)] for k, v in t.items()]] for n, t in db.value_tables.items()]}
+
+
+def to_file_text(m):
+    """(text of the DBC file holding m, description of the matrix a reader gets from that file) or None if the file does not hold it
+    cleanly (the writer refuses, the reader complains, the result is outside the descriptions)"""
+    noise = io.StringIO()
+    try:
+        with contextlib.redirect_stdout(noise):
+            f = io.BytesIO()
+            canmatrix.formats.dump(build(m), f, "dbc")
+            raw = f.getvalue()
+            back = describe(canmatrix.formats.load_flat(io.BytesIO(raw), "dbc"))
+    except Exception:
+        return None
+    if noise.getvalue():
+        return None
+    return raw.decode("iso-8859-1"), back
+
+
+def gen_history(rng, npairs=1):
+    """earlier invocations of the command line in the same process: [comments, attributes, valueTable, frames, operands, spelling, entry, pair]"""
+    return [[rng.random() < 0.5, rng.random() < 0.5, rng.random() < 0.5, rng.random() < 0.15, rng.choice(["ab", "ab", "ba", "aa"]),
+             rng.choice(["short", "long"]), rng.choice(ENTRIES), rng.randrange(npairs)] for _ in range(rng.choice([0, 1, 1, 2, 3]))]
+
+
+def gen_cli_case(rng):
+    a = file_fit(gen_matrix(rng))
+    k = rng.random()
+    if k < 0.1:
+        b, desc = pycopy.deepcopy(a), "none"
+    elif k < 0.9:
+        want = rng.random() < 0.6
+        for _ in range(12):
+            b, desc = edit(rng, a)
+            if b is not None and (not want or OPTION_SENSITIVE.search(desc)):
+                break
+        if b is None:
+            return None
+    else:
+        b, desc = gen_matrix(rng, rng.choice(["", "b"])), "unrelated"
+    fa, fb = to_file_text(a), to_file_text(file_fit(b))
+    if fa is None or fb is None:
+        return None
+    cc, ca, iv = rng.random() < 0.5, rng.random() < 0.5, rng.random() < 0.4
+    return {"op": "cmp", "c": {"a": fa[1], "b": fb[1], "ign": [not cc, not ca, False, iv], "edit": desc,
+                               "cli": {"files": [fa[0], fb[0]], "flags": [cc, ca, iv], "spelling": rng.choice(["short", "long"]),
+                                       "entry": rng.choice(ENTRIES), "history": gen_history(rng)}}}
+
+
+def cli_args(cc, ca, iv, frames, spelling):
+    names = {"short": ["-c", "-a", "-t", "-f"], "long": ["--comments", "--attributes", "--valueTable", "--frames"]}[spelling]
+    return [n for n, on in zip(names, [cc, ca, iv, frames]) if on]
+
+
+def run_cli(entry, cc, ca, iv, frames, spelling, p1, p2):
+    """one invocation of the comparison command line in this process; returns what it wrote to standard output"""
+    args = ["-s"] + cli_args(cc, ca, iv, frames, spelling) + [p1, p2]
+    if entry == "runner":
+        res = click.testing.CliRunner().invoke(cancompare.cli_compare, args, catch_exceptions=False)
+        return res.stdout
+    out = io.StringIO()
+    with contextlib.redirect_stdout(out):
+        if entry == "callback":
+            cancompare.cli_compare.callback(matrix1=p1, matrix2=p2, verbosity=1, silent=True, check_comments=cc, check_attributes=ca,
+                                     ignore_valuetables=iv, frames=frames)
+        else:
+            cancompare.cli_compare.main(args=args, standalone_mode=False)
+    return out.getvalue()
+
+
+@contextlib.contextmanager
+def cli_session(texts):
+    """files for one case in a scratch directory; the logging set-up of the command line (one more handler per invocation) is undone"""
+    root = logging.getLogger()
+    handlers, level = list(root.handlers), root.level
+    with tempfile.TemporaryDirectory(prefix="c13-") as d:
+        paths = []
+        for i, t in enumerate(texts):
+            p = os.path.join(d, "m%d.dbc" % i)
+            with open(p, "wb") as f:
+                f.write(t.encode("iso-8859-1"))
+            paths.append(p)
+        try:
+            yield paths
+        finally:
+            root.handlers[:] = handlers
+            root.setLevel(level)
+
+
+def run_history(history, pairs):
+    for cc, ca, iv, frames, operands, spelling, entry, pair in history:
+        pa, pb = pairs[pair % len(pairs)]
+        p1, p2 = {"ab": (pa, pb), "ba": (pb, pa), "aa": (pa, pa)}[operands]
+        run_cli(entry, cc, ca, iv, frames, spelling, p1, p2)
+
+
+class ObservedError(Exception):
+    """the code under test raised in the child process that observed it"""
+
+
+def in_child(fn, arg):
+    """fn(arg) in a forked child of this process.  The command line is only ever run in such children, so every case starts from a
+    process in which it has not been run before and the earlier invocations are exactly those the case names: a failing case fails
+    again when it is replayed alone."""
+    r, w = os.pipe()
+    pid = os.fork()
+    if pid == 0:
+        try:
+            os.close(r)
+            try:
+                res = {"ok": fn(arg)}
+            except core.Infra as e:
+                res = {"infra": str(e)}
+            except BaseException as e:  # noqa
+                res = {"exc": type(e).__name__ + ": " + str(e)[:200]}
+            with os.fdopen(w, "w") as f:
+                json.dump(res, f)
+        finally:
+            os._exit(0)
+    os.close(w)
+    with os.fdopen(r) as f:
+        data = f.read()
+    os.waitpid(pid, 0)
+    if not data:
+        raise core.Infra("C13: the child process observing the command line died without an answer")
+    res = json.loads(data)
+    if "infra" in res:
+        raise core.Infra(res["infra"])
+    if "exc" in res:
+        raise ObservedError(res["exc"])
+    return res["ok"]
+
+
+NODE_LINE = re.compile(r"^(.*?) (added|deleted|changed|removed|equal)  (.*)$")
+
+
+def parse_dump(text):
+    """the report of dump_result as a tree [result, type, children]: the nodes it prints (those that are not 'equal'), nested by their
+    indentation; the verdict of the root is not printed - it is taken to say what the listing says"""
+    root = [None, None, []]
+    stack = [(0, root)]
+    after_class = False
+    for line in text.split("\n"):
+        if line == "":
+            continue
+        body = line.lstrip(" ")
+        indent = len(line) - len(body)
+        if body.startswith("<class "):
+            after_class = True
+            continue
+        if after_class and line.startswith("old: "):
+            after_class = False
+            continue
+        after_class = False
+        m = NODE_LINE.match(body)
+        if m is None or indent % 2 or indent == 0:
+            node, depth = ["changed", "unreadable line: " + line[:80], []], 1
+        else:
+            node, depth = [m.group(2), m.group(1), []], indent // 2
+        while stack[-1][0] >= depth:
+            stack.pop()
+        stack[-1][1][2].append(node)
+        stack.append((depth, node))
+    if root[2]:
+        root[0] = "changed"
+    return root
+
+
+def dumped(res):
+    out = io.StringIO()
+    with contextlib.redirect_stdout(out):
+        canmatrix.compare.dump_result(res)
+    return out.getvalue()
+
+
+def observe_cli(c):
+    """the two matrices are in files; the command line compares them (a b, then b a) with the switches of the case, after the earlier
+    invocations of the case.  What it prints is held against the library comparing the same files under the ignore settings these
+    switches stand for: the same text -> that tree is the observation; another text -> the printed listing is the observation"""
+    cli = c["cli"]
+    cc, ca, iv = cli["flags"]
+    ignore = {}
+    if c["ign"][0]:
+        ignore["comment"] = "*"
+    if c["ign"][1]:
+        ignore["ATTRIBUTE"] = "*"
+    if c["ign"][3]:
+        ignore["VALUETABLES"] = True
+    with cli_session(cli["files"]) as (pa, pb):
+        A, B = canmatrix.formats.loadp_flat(pa), canmatrix.formats.loadp_flat(pb)
+        if describe(A) != c["a"] or describe(B) != c["b"]:
+            raise core.Infra("C13: the files of the case do not hold the matrices of the case (case written by another version of the reader?)")
+        run_history(cli["history"], [(pa, pb)])
+        out_ab = run_cli(cli["entry"], cc, ca, iv, False, cli["spelling"], pa, pb)
+        out_ba = run_cli(cli["entry"], cc, ca, iv, False, cli["spelling"], pb, pa)
+        lib_ab = canmatrix.compare.compare_db(A, B, ignore)
+        lib_ba = canmatrix.compare.compare_db(B, A, ignore)
+        impl = {"ab": tree(lib_ab), "ba": tree(lib_ba)}
+        want_ab, want_ba = dumped(lib_ab), dumped(lib_ba)
+    notes = []
+    if out_ab != want_ab:
+        impl["ab"] = parse_dump(out_ab)
+        notes.append("a b")
+    if out_ba != want_ba:
+        impl["ba"] = parse_dump(out_ba)
+        notes.append("b a")
+    if notes:
+        impl["note"] = ("the command line (%s) prints another report than the comparison of the same files under the ignore settings "
+                        "its switches stand for; the printed report is the observation" % ", ".join(notes))
+    if os.environ.get("VERIF_C13_SELFCHECK") == "1" and not notes:
+        for out, t in ((out_ab, impl["ab"]), (out_ba, impl["ba"])):
+            if parse_dump(out) != pruned(t):
+                raise core.Infra("C13: parse_dump does not read back dump_result: %r" % out[:400])
+    return impl
+
+
+def pruned(t):
+    """the part of a result tree that dump_result prints"""
+    def kids(n):
+        out = []
+        for ch in n[2]:
+            if ch[1] is not None and ch[0] != "equal":
+                out.append([ch[0], ch[1], kids(ch)])
+            else:
+                out.extend(kids(ch))
+        return out
+    k = kids(t)
+    return ["changed" if k else None, None, k]
+
+
+# probe files: one base matrix and variants that differ from it in exactly one thing of one category
+PROBE_BASE = {
+    "frames": [{"name": "Status", "id": 0x123, "ext": False, "size": 8, "comment": "status frame", "tx": ["E1"], "attrs": [["GenA", "x"]],
+                "sigs": [{"name": "Mode", "start": 0, "size": 4, "factor": 2, "offset": 0, "min": 0, "max": 30, "little": True, "signed": False,
+                          "multiplex": "None", "unit": "", "comment": "operating mode", "receivers": ["E2"], "attrs": [["Note", "on"]],
+                          "values": [[0, "Off"], [1, "On"]]}], "groups": []}],
+    "ecus": [["E1", "first", [["Mode", "x"]]], ["E2", None, []]], "attrs": [["GenA", "1"]],
+    "gd": [["GenA", "STRING", None], ["Level", "INT 0 100", "5"]], "ed": [["Mode", "STRING", None]], "fd": [["GenA", "STRING", None]],
+    "sd": [["Note", "STRING", None]], "vt": [["VT0", [[0, "a"], [1, "b"]]]]}
+
+
+def _probe(path, value):
+    m = pycopy.deepcopy(PROBE_BASE)
+    x = m
+    for k in path[:-1]:
+        x = x[k]
+    x[path[-1]] = value
+    return m
+
+
+PROBES = [  # (category: index into [comment, attribute, define, value table], variant)
+    (0, _probe(["frames", 0, "comment"], "frame of the status")),
+    (0, _probe(["frames", 0, "sigs", 0, "comment"], "mode of operation")),
+    (0, _probe(["ecus", 0, 1], "the first")),
+    (1, _probe(["attrs", 0, 1], "on")),
+    (1, _probe(["frames", 0, "attrs", 0, 1], "1")),
+    (1, _probe(["frames", 0, "sigs", 0, "attrs", 0, 1], "x")),
+    (1, _probe(["ecus", 0, 2, 0, 1], "on")),
+    (2, _probe(["gd", 1, 2], "7")),
+    (2, _probe(["gd", 1, 1], "INT 0 101")),
+    (3, _probe(["frames", 0, "sigs", 0, "values", 1, 1], "Auto")),
+    (3, _probe(["frames", 0, "sigs", 0, "values"], [[0, "Off"], [1, "On"], [2, "Standby"]])),
+    (3, _probe(["vt", 0, 1, 0, 1], "c")),
+]
+_probe_texts = []
+
+
+def probe_texts():
+    if not _probe_texts:
+        base = to_file_text(pycopy.deepcopy(PROBE_BASE))
+        texts = [base[0]]
+        for _, m in PROBES:
+            t = to_file_text(m)
+            if base is None or t is None or t[1] == base[1]:
+                raise core.Infra("C13: a probe file of the command-line check does not hold its difference")
+            texts.append(t[0])
+        _probe_texts.extend(texts)
+    return _probe_texts
+
+
+def observe_flags(c):
+    """what the switches mean, by what the command line reports on the probe files: a category is ignored when no probe of it is reported"""
+    cc, ca, iv = c[:3]
+    history = c[3] if len(c) > 3 else []
+    with cli_session(probe_texts()) as paths:
+        pairs = [(paths[0], p) for p in paths[1:]]
+        run_history(history, pairs)
+        silent = [[], [], [], []]
+        for k, ((cat, _), (pa, pb)) in enumerate(zip(PROBES, pairs)):
+            out = run_cli(ENTRIES[(k + len(history)) % len(ENTRIES)], cc, ca, iv, False, "long" if k % 2 else "short", pa, pb)
+            silent[cat].append(out.strip() == "")
+    return [all(s) if all(s) or not any(s) else "some probes of the category reported, others not: %s" % s for s in silent]
 
 
 def neighbours(case, rng, shard, nshards):
@@ -334,15 +734,9 @@ def tree(r):
 
 def observe(case):
     if case["op"] == "flags":
-        cc, ca, iv = case["c"]
-        ignore = {}
-        if not cc:
-            ignore["comment"] = "*"
-        if not ca:
-            ignore["ATTRIBUTE"] = "*"
-        if iv:
-            ignore["VALUETABLES"] = True
-        return ["comment" in ignore, ignore.get("ATTRIBUTE") == "*", ignore.get("DEFINE") == "*", bool(ignore.get("VALUETABLES"))]
+        return in_child(observe_flags, case["c"])
+    if "cli" in case["c"]:
+        return in_child(observe_cli, case["c"])
     c = case["c"]
     ignore = {}
     if c["ign"][0]:
@@ -378,6 +772,9 @@ def observe(case):
         return build(me)
     # the two matrices are compared in both orders as the same objects: comparing reads its operands, it does not change them
     A, B = built("a"), built("b")
+    for ign4, operands in c.get("pre", []):
+        other = {k: v for on, (k, v) in zip(ign4, [("comment", "*"), ("ATTRIBUTE", "*"), ("DEFINE", "*"), ("VALUETABLES", True)]) if on}
+        canmatrix.compare.compare_db({"a": A, "b": B}[operands[0]], {"a": A, "b": B}[operands[1]], other)
     ab = tree(canmatrix.compare.compare_db(A, B, ignore))
     ba = tree(canmatrix.compare.compare_db(B, A, ignore))
     again = tree(canmatrix.compare.compare_db(A, B, ignore))
@@ -398,6 +795,16 @@ def features(case, impl):
         yield "edit=" + case["c"]["edit"]
         yield "ign=%s" % "".join("1" if x else "0" for x in case["c"]["ign"])
         yield "reports=" + ("nothing" if impl["ab"][0] != "changed" else "differences")
+        if "cli" in case["c"]:
+            cli = case["c"]["cli"]
+            yield "path=command line (%s), %d earlier invocations" % (cli["entry"], len(cli["history"]))
+            yield "cli switches=%s" % "".join("1" if x else "0" for x in cli["flags"])
+            if any(h[:3] != cli["flags"] for h in cli["history"]):
+                yield "cli: earlier invocation with other switches"
+        else:
+            yield "path=library, %d earlier comparisons" % len(case["c"].get("pre", []))
+    elif case["op"] == "flags":
+        yield "flags: %d earlier invocations" % (len(case["c"][3]) if len(case["c"]) > 3 else 0)
 
 
 def nontrivial(case, impl):
